@@ -13,18 +13,19 @@
      accepted  the server acknowledged cur or answered while cur was outstanding
      elig      answers received while cur was outstanding (anything received earlier is stale)
      inds      indications received and not yet handed to the indication callback
-     closedAt  instant at which the connection was closed while cur was outstanding (-1: not) *)
+     closedAt  instant at which the connection was closed while cur was outstanding (-1: not)
+     acked     the acknowledgement of cur's frame arrived (the wait for it cannot be interrupted by closing) *)
 EXTENDS Integers, Sequences, FiniteSets
 CONSTANTS UDP, REPEAT, TIMEOUT
-VARIABLES open, txSeq, waiting, cur, nTx, accepted, elig, inds, closedAt
-vars == <<open, txSeq, waiting, cur, nTx, accepted, elig, inds, closedAt>>
+VARIABLES open, txSeq, waiting, cur, nTx, accepted, elig, inds, closedAt, acked
+vars == <<open, txSeq, waiting, cur, nTx, accepted, elig, inds, closedAt, acked>>
 NoReq == [id |-> -1]
 Init == /\ open = TRUE /\ txSeq = 0 /\ waiting = {} /\ cur = NoReq /\ nTx = 0 /\ accepted = FALSE /\ elig = {}
-        /\ inds = <<>> /\ closedAt = -1
+        /\ inds = <<>> /\ closedAt = -1 /\ acked = FALSE
 \* req = [id, kind ("read" | "write"), key (<<object type, instance, property id>>)]
 Call(req) == /\ \A r \in waiting : r.id # req.id
              /\ waiting' = waiting \cup {req}
-             /\ UNCHANGED <<open, txSeq, cur, nTx, accepted, elig, inds, closedAt>>
+             /\ UNCHANGED <<open, txSeq, cur, nTx, accepted, elig, inds, closedAt, acked>>
 Owner(id) == IF cur = NoReq THEN CHOOSE r \in waiting \cup {NoReq} : r.id = id \/ (r = NoReq /\ \A q \in waiting : q.id # id)
              ELSE cur
 (* a DeviceConfigurationRequest carrying request id's frame is put on the wire *)
@@ -37,22 +38,23 @@ TxReq(id, seq) ==
   /\ cur' = Owner(id) /\ nTx' = nTx + 1
   /\ accepted' = (IF UDP THEN accepted ELSE TRUE)      \* TCP: the counter advances with the transmission
   /\ elig' = (IF cur = NoReq THEN {} ELSE elig)
-  /\ UNCHANGED <<open, txSeq, waiting, inds, closedAt>>
+  /\ UNCHANGED <<open, txSeq, waiting, inds, closedAt, acked>>
 RxAck(seq, st) == /\ accepted' = (accepted \/ (UDP /\ cur # NoReq /\ nTx > 0 /\ seq = txSeq /\ st = 0))
+                  /\ acked' = (acked \/ (UDP /\ cur # NoReq /\ nTx > 0 /\ seq = txSeq /\ st = 0))
                   /\ UNCHANGED <<open, txSeq, waiting, cur, nTx, elig, inds, closedAt>>
 (* a cEMI frame of the server is passed up: type "read" (M_PropRead.con) | "write" (M_PropWrite.con) | "ind" *)
 RxCemi(type, key, val, err) ==
   IF type = "ind"
-  THEN inds' = Append(inds, key) /\ UNCHANGED <<open, txSeq, waiting, cur, nTx, accepted, elig, closedAt>>
+  THEN inds' = Append(inds, key) /\ UNCHANGED <<open, txSeq, waiting, cur, nTx, accepted, elig, closedAt, acked>>
   ELSE /\ IF cur # NoReq /\ nTx > 0
              THEN elig' = elig \cup {[type |-> type, key |-> key, val |-> val, err |-> err]} /\ accepted' = TRUE
              ELSE UNCHANGED <<elig, accepted>>
-       /\ UNCHANGED <<open, txSeq, waiting, cur, nTx, inds, closedAt>>
+       /\ UNCHANGED <<open, txSeq, waiting, cur, nTx, inds, closedAt, acked>>
 IndCb(key) == /\ inds # <<>> /\ Head(inds) = key /\ inds' = Tail(inds)       \* indications go to the callback, in order
-              /\ UNCHANGED <<open, txSeq, waiting, cur, nTx, accepted, elig, closedAt>>
+              /\ UNCHANGED <<open, txSeq, waiting, cur, nTx, accepted, elig, closedAt, acked>>
 Close(t) == /\ open' = FALSE
             /\ closedAt' = (IF cur # NoReq /\ closedAt = -1 THEN t ELSE closedAt)
-            /\ UNCHANGED <<txSeq, waiting, cur, nTx, accepted, elig, inds>>
+            /\ UNCHANGED <<txSeq, waiting, cur, nTx, accepted, elig, inds, acked>>
 (* request id returns: out = "ok" with value val, or "err" (CommunicationError) *)
 Mine(a, r) == a.type = r.kind /\ a.key = r.key
 Ret(id, out, val, t) ==
@@ -63,12 +65,12 @@ Ret(id, out, val, t) ==
      /\ out = "err" => TRUE
      /\ (closedAt # -1 /\ cur = r) =>                              \* closed while outstanding: fails promptly
             /\ out = "err" \/ \E a \in elig : Mine(a, r) /\ a.val = val
-            /\ t <= closedAt + (IF UDP /\ nTx > 0 /\ ~accepted THEN TIMEOUT ELSE 0)
+            /\ t <= closedAt + (IF UDP /\ nTx > 0 /\ ~acked THEN TIMEOUT ELSE 0)
      /\ (cur = NoReq) => (out = "err" /\ ~open)                    \* never transmitted: only on a closed connection
      /\ (cur = r /\ ~accepted /\ open) => FALSE                    \* an unaccepted request ends the connection
      /\ waiting' = waiting \ {r}
      /\ txSeq' = (IF cur = r /\ accepted THEN (txSeq + 1) % 256 ELSE txSeq)   \* once per accepted request
-  /\ cur' = NoReq /\ nTx' = 0 /\ accepted' = FALSE /\ elig' = {} /\ closedAt' = -1
+  /\ cur' = NoReq /\ nTx' = 0 /\ accepted' = FALSE /\ elig' = {} /\ closedAt' = -1 /\ acked' = FALSE
   /\ UNCHANGED <<open, inds>>
-Reconnected == ~open /\ cur = NoReq /\ open' = TRUE /\ txSeq' = 0 /\ UNCHANGED <<waiting, cur, nTx, accepted, elig, inds, closedAt>>
+Reconnected == ~open /\ cur = NoReq /\ open' = TRUE /\ txSeq' = 0 /\ UNCHANGED <<waiting, cur, nTx, accepted, elig, inds, closedAt, acked>>
 =============================================================================
